@@ -5,6 +5,7 @@ import (
 	"fmt"
 	"hash/fnv"
 	"os"
+	"path/filepath"
 	"sort"
 	"strconv"
 	"testing"
@@ -192,35 +193,47 @@ func TestWorker(t *testing.T) {
 			}
 			continue
 		}
-		if res.Violation != nil && known[res.Violation.Oracle+"/"+res.Violation.FindingKey] {
-			key := res.Violation.Oracle + "/" + res.Violation.FindingKey
-			out.KnownHits[key]++
-			if out.KnownReplay[key] == "" {
-				rf := &ReplayFile{Property: prop, Scenario: sc.Name, Tier: tier, Seed: seed, RunIndex: idx, Tapes: res.Tapes, Violation: res.Violation, LogHash: res.LogHash, Steps: res.Steps, Sample: res.Sample}
-				if path, err := WriteReplay(replayDir, rf); err == nil {
-					out.KnownReplay[key] = path
-				}
+		// all violations of the run: the primary one and the soft ones
+		var fresh *Violation
+		for _, v := range append([]*Violation{res.Violation}, res.Soft...) {
+			if v == nil {
+				continue
 			}
-			continue
+			key := v.Oracle + "/" + v.FindingKey
+			if known[key] {
+				out.KnownHits[key]++
+				if out.KnownReplay[key] == "" {
+					rf := &ReplayFile{Property: prop, Scenario: sc.Name, Tier: tier, Seed: seed, RunIndex: idx, Tapes: res.Tapes, Violation: v, LogHash: res.LogHash, Steps: res.Steps, Sample: res.Sample}
+					if path, err := WriteReplay(filepath.Join(replayDir, "known"), rf); err == nil {
+						out.KnownReplay[key] = path
+					}
+				}
+				continue
+			}
+			if fresh == nil {
+				fresh = v
+			}
 		}
-		if res.Violation != nil {
+		if fresh != nil {
 			orig := res.Tapes
-			shr, execs := Shrink(t, sc, tier, res, envInt("VERIF_SHRINK_EXECS", 250), time.Duration(envInt("VERIF_SHRINK_S", 90))*time.Second)
+			shr, execs := Shrink(t, sc, tier, res, fresh, envInt("VERIF_SHRINK_EXECS", 250), time.Duration(envInt("VERIF_SHRINK_S", 90))*time.Second)
 			// final replay with event log, twice, to prove it replays exactly
 			r1 := ExecRun(t, sc, sim.ReplayTapes(shr.Tapes), tier, true)
 			r2 := ExecRun(t, sc, sim.ReplayTapes(shr.Tapes), tier, false)
-			exact := sameViolation(r1.Violation, res.Violation) && sameViolation(r2.Violation, res.Violation) && r1.LogHash == r2.LogHash
-			rf := &ReplayFile{Property: prop, Scenario: sc.Name, Tier: tier, Seed: seed, RunIndex: idx, Tapes: shr.Tapes, Violation: r1.Violation, LogHash: r1.LogHash, Steps: r1.Steps, Sample: r1.Sample, Shrunk: true, ShrinkExecs: execs, Original: &orig, Log: r1.Log}
-			if r1.Violation == nil {
-				rf.Violation = res.Violation
+			exact := hasViolation(r1, fresh) && hasViolation(r2, fresh) && r1.LogHash == r2.LogHash
+			rf := &ReplayFile{Property: prop, Scenario: sc.Name, Tier: tier, Seed: seed, RunIndex: idx, Tapes: shr.Tapes, Violation: fresh, LogHash: r1.LogHash, Steps: r1.Steps, Sample: r1.Sample, Shrunk: true, ShrinkExecs: execs, Original: &orig, Log: r1.Log}
+			for _, v := range append([]*Violation{r1.Violation}, r1.Soft...) {
+				if sameViolation(v, fresh) {
+					rf.Violation = v
+				}
 			}
 			path, err := WriteReplay(replayDir, rf)
 			if err != nil {
 				out.HarnessErrs = append(out.HarnessErrs, "cannot write replay: "+err.Error())
 			}
 			out.Violations = append(out.Violations, ViolationOut{Violation: rf.Violation, Replay: path, Replays: exact})
-			// one violation class per worker is enough; keep searching would
-			// mostly rediscover it
+			// one fresh violation class per worker is enough; searching on
+			// would mostly rediscover it
 			break
 		}
 		if i%20 == 19 {
@@ -281,11 +294,19 @@ func TestReplay(t *testing.T) {
 		os.RemoveAll(world.ScratchRoot)
 		os.Exit(2)
 	}
+	if res.Violation == nil && len(res.Soft) > 0 {
+		res.Violation = res.Soft[0]
+		for _, v := range res.Soft {
+			if sameViolation(v, rf.Violation) {
+				res.Violation = v
+			}
+		}
+	}
 	if res.Violation == nil {
 		fmt.Printf("REPLAY-RESULT no violation reproduced (property=%s scenario=%s) log_hash_match=%v\n", rf.Property, rf.Scenario, res.LogHash == rf.LogHash)
 		return
 	}
-	same := sameViolation(res.Violation, rf.Violation)
+	same := hasViolation(res, rf.Violation)
 	fmt.Printf("REPLAY-RESULT reproduced=%v same_class=%v log_hash_match=%v\n", true, same, res.LogHash == rf.LogHash)
 	fmt.Printf("VIOLATION property=%s replay=%s\n", rf.Property, path)
 	fmt.Printf("  %s\n", res.Violation.String())
